@@ -41,7 +41,13 @@ def ext_comm_expected(items, peer_as4):
     out = b""
     for item in items:
         key, value = item.split(":", 1)
-        sub = {"route-target": 2, "route-origin": 3}.get(key.strip().lower())
+        k_ = key.strip().lower()
+        if k_ in ("color-00", "color-01", "color-10", "color-11"):
+            # RFC 9012 Color extended community: 03 0b, flags CO in the two top bits, 4-octet colour
+            for v in value.strip().split(","):
+                out += bytes([0x03, 0x0b, int(k_[-2:], 2) << 6, 0]) + struct.pack("!I", int(v))
+            continue
+        sub = {"route-target": 2, "route-origin": 3}.get(k_)
         if sub is None:
             return None
         for v in value.strip().split(","):
@@ -307,6 +313,8 @@ class RestCtx(FsmCtx):
                 attr["16"] = ["%s:%s" % (rng.pick(["route-target", "route-target", "route-origin"]), ",".join(vals))]
                 if rng.chance(0.3):
                     attr["16"].append("route-target:%s" % rng.pick(["64512:9", "65535:65535"]))
+                if rng.chance(0.25):
+                    attr["16"].append("%s:%d" % (rng.pick(["color-00", "color-01", "color-10", "color-11"]), rng.pick([0, 1, 100, 2 ** 32 - 1])))
                 self.stats["gen:extended_communities_in_request"] += 1
         if rng.chance(0.08):
             # degenerate request shapes: routes without path attributes, empty attribute values, an MP_UNREACH
